@@ -180,20 +180,20 @@ Qed.
 
 Lemma resolve_children (ms : segs) s a t rs :
   resolve_ptr ms s a = (t, rs) -> simple_target t ->
-  NoDup (children t) /\ (forall ps r, rs = ps ++ [r] -> r_size r = 0 -> children t = []).
+  NoDup (children t) /\ (forall ps r, rs = ps ++ [r] -> r_size r = 0 -> children t = []) /\ (rs = [] -> children t = []).
 Proof.
   intros H S. unfold resolve_ptr in H.
   destruct (word_at ms s a) as [w|]; [|inversion H; subst; cbn in S; contradiction].
-  destruct (w =? 0); [inversion H; subst; split; [constructor|reflexivity]|].
+  destruct (w =? 0); [inversion H; subst; split; [constructor|split; reflexivity]|].
   destruct (f_A w =? 3).
-  { destruct (_ =? 0); inversion H; subst; [split; [constructor|reflexivity]|cbn in S; contradiction]. }
+  { destruct (_ =? 0); inversion H; subst; [split; [constructor|split; reflexivity]|cbn in S; contradiction]. }
   destruct (f_A w =? 2).
   - cbv zeta in H. destruct (f_B w =? 0).
     + destruct (negb _); [inversion H; subst; cbn in S; contradiction|].
       destruct (word_at ms (f_seg w) (8 * f_padoff w)) as [pw|]; [|inversion H; subst; cbn in S; contradiction].
       destruct (_ || _); [inversion H; subst; cbn in S; contradiction|].
       destruct (decode_obj ms (f_seg w) (8 * f_padoff w + 8) pw) as [t0 rs0] eqn:ED. inversion H; subst.
-      destruct (decode_obj_children _ _ _ _ _ _ ED S) as [N Z]. split; [exact N|].
+      destruct (decode_obj_children _ _ _ _ _ _ ED S) as [N Z]. split; [exact N|]. split; [|discriminate].
       intros ps r E Hz. destruct (decode_obj_one _ _ _ _ _ _ ED S) as [r0 ->].
       apply (Z r0); [reflexivity|].
       match type of E with ?x :: [r0] = _ => change (x :: [r0]) with ([x] ++ [r0]) in E end.
@@ -204,14 +204,94 @@ Proof.
       destruct (negb _); [inversion H; subst; cbn in S; contradiction|].
       destruct (_ || _); [inversion H; subst; cbn in S; contradiction|].
       destruct (decode_obj ms (f_seg fw) (8 * f_padoff fw) tag) as [t0 rs0] eqn:ED. inversion H; subst.
-      destruct (decode_obj_children _ _ _ _ _ _ ED S) as [N Z]. split; [exact N|].
+      destruct (decode_obj_children _ _ _ _ _ _ ED S) as [N Z]. split; [exact N|]. split; [|discriminate].
       intros ps r E Hz. destruct (decode_obj_one _ _ _ _ _ _ ED S) as [r0 ->].
       apply (Z r0); [reflexivity|].
       match type of E with ?x :: [r0] = _ => change (x :: [r0]) with ([x] ++ [r0]) in E end.
       symmetry in E. apply app_inj_tail in E. destruct E as [_ E]. subst r. exact Hz.
   - destruct (decode_obj ms s (a + 8) w) as [t0 rs0] eqn:ED. inversion H; subst.
     destruct (decode_obj_children _ _ _ _ _ _ ED S) as [N Z]. split; [exact N|].
+    split; [|intros X; destruct (decode_obj_one _ _ _ _ _ _ ED S) as [r0 Y]; rewrite Y in X; discriminate X].
     intros ps r E Hz. destruct (decode_obj_one _ _ _ _ _ _ ED S) as [r0 ->].
     apply (Z r0); [reflexivity|].
     change [r0] with ([] ++ [r0]) in E. symmetry in E. apply app_inj_tail in E. destruct E as [_ E]. subst r. exact Hz.
+Qed.
+
+(* ------------------------------------------------------------------ regions collected are table regions *)
+Definition Rg (objs : list Ptr) (pads : list region) (r : region) : Prop :=
+  r_size r = 0 \/ In r (all_regs objs pads).
+
+Lemma reg_eqb_refl a : reg_eqb a a = true.
+Proof. unfold reg_eqb. lia. Qed.
+
+Lemma ord_disjoint_in l a b : ord_disjoint l -> In a l -> In b l -> reg_eqb a b = true \/ reg_disjoint a b = true.
+Proof.
+  intros D Ha Hb. destruct (In_nth _ _ root_reg Ha) as (i & Hi & <-). destruct (In_nth _ _ root_reg Hb) as (j & Hj & <-).
+  destruct (lt_eq_lt_dec i j) as [[L|E]|L].
+  - right. apply D; auto.
+  - subst j. left. apply reg_eqb_refl.
+  - right. apply reg_disjoint_sym. apply D; auto.
+Qed.
+
+Lemma regs_eq_or_disjoint m objs pads a b :
+  hinv m objs pads -> Rg objs pads a -> Rg objs pads b -> reg_eqb a b = true \/ reg_disjoint a b = true.
+Proof.
+  intros H [Za|Ha] [Zb|Hb]; try (right; unfold reg_disjoint; lia).
+  unfold all_regs in *. apply in_app_or in Ha. apply in_app_or in Hb.
+  destruct Ha as [Ha|Ha]; destruct Hb as [Hb|Hb].
+  - apply (ord_disjoint_in _ _ _ (hi_disjO _ _ _ H)); auto.
+  - right. apply (hi_cross _ _ _ H); auto.
+  - right. apply reg_disjoint_sym. apply (hi_cross _ _ _ H); auto.
+  - apply (ord_disjoint_in _ _ _ (hi_disjP _ _ _ H)); auto.
+Qed.
+
+Lemma pairwise_ok_table m objs pads l : hinv m objs pads -> Forall (Rg objs pads) l -> pairwise_ok l = true.
+Proof.
+  intros H. induction 1 as [|a r Ha Hr IH]; [reflexivity|]. cbn [pairwise_ok]. rewrite IH. rewrite Bool.andb_true_r.
+  apply forallb_forall. intros b Hb. rewrite Forall_forall in Hr.
+  destruct (regs_eq_or_disjoint _ _ _ a b H Ha (Hr b Hb)) as [E|E]; rewrite E; [reflexivity|apply Bool.orb_true_r].
+Qed.
+
+(* ------------------------------------------------------------------ the theorem *)
+Theorem hinv_valid m objs pads : hinv m objs pads -> valid_message (bm_data m) = VOk.
+Proof.
+  intros H. unfold valid_message.
+  assert (A8 : forallb (fun s => zlen s mod 8 =? 0) (bm_data m) = true).
+  { apply forallb_forall. intros s Hs. unfold bm_data in Hs. apply in_map_iff in Hs. destruct Hs as (b & <- & Hb).
+    destruct (hi_inv _ _ _ H) as [Hwf _]. unfold bmsg_wf in Hwf. rewrite Forall_forall in Hwf.
+    destruct (Hwf b Hb) as [_ X]. unfold blen in X. lia. }
+  rewrite A8. cbn [negb].
+  assert (R0 : in_seg (bm_data m) 0 0 8 = true).
+  { apply (hi_in _ _ _ H root_reg). unfold all_regs, regsO. left. reflexivity. }
+  rewrite R0. cbn [negb].
+  set (G := fun q : Z * Z => In q ((0, 0) :: flat_map slots objs)).
+  assert (Gpos : forall p, G p -> In p (all_positions (bm_data m))).
+  { intros [s a] Hp. destruct (slot_geometry _ _ _ _ H Hp) as (Q1 & Q2 & Q3 & Q4 & _). cbn [fst snd] in *.
+    unfold all_positions. apply in_all_pos; try lia.
+    - rewrite zlen_bm. lia.
+    - replace (s - 0) with s by lia. rewrite nth_bm_data. exact Q4. }
+  assert (Gres : forall p, G p -> exists t rs,
+      resolve_ptr (bm_data m) (fst p) (snd p) = (t, rs) /\ is_bad t = false /\ NoDup (children t) /\
+      (forall c, In c (children t) -> G c) /\ Forall (Rg objs pads) rs).
+  { intros p Hp. destruct (hi_slots _ _ _ H p Hp) as (t & rs & E & S & C).
+    destruct (resolve_children _ _ _ _ _ E S) as (N & Z1 & Z2).
+    exists t, rs. split; [exact E|]. split; [destruct t; cbn in *; auto; contradiction|]. split; [exact N|].
+    destruct C as [->|(ps & r & -> & Ips & D)].
+    - split; [intros c Hc; rewrite (Z2 eq_refl) in Hc; destruct Hc|constructor].
+    - split.
+      + destruct D as [D|(h & Hh & -> & ->)].
+        * intros c Hc. rewrite (Z1 ps r eq_refl D) in Hc. destruct Hc.
+        * intros c Hc. unfold G. right. apply in_flat_map. exists h. split; [exact Hh|exact Hc].
+      + apply Forall_app. split.
+        * apply Forall_forall. intros x Hx. right. unfold all_regs. apply in_or_app. right. apply Ips. exact Hx.
+        * constructor; [|constructor]. destruct D as [D|(h & Hh & -> & _)]; [left; exact D|right].
+          unfold all_regs, regsO. apply in_or_app. left. right. apply in_map. exact Hh. }
+  destruct (collect_ok (bm_data m) G (Rg objs pads) Gpos Gres
+              (Z.to_nat (total_words (bm_data m) + 2)) [(0, 0)] [] [mkReg 0 0 8]) as (acc & E & RA).
+  - cbn. constructor; [intros []|constructor].
+  - constructor; [left; reflexivity|constructor].
+  - intros x [].
+  - constructor; [|constructor]. right. unfold all_regs, regsO. left. reflexivity.
+  - pose proof (all_pos_length (bm_data m) 0) as L. unfold all_positions. cbn [length]. lia.
+  - rewrite E. rewrite (pairwise_ok_table _ _ _ _ H RA). reflexivity.
 Qed.
